@@ -1,6 +1,7 @@
 package main
 
 import (
+	"encoding/base64"
 	"context"
 	"crypto/ed25519"
 	"encoding/json"
@@ -399,6 +400,18 @@ func c15verdict(c *mon.Ctx, handler, name string, want, got bool, guards string,
 	}
 }
 
+// withJunkSignature returns the event JSON with a made-up entry under the given server's name and key ID added to
+// its signatures: both are public, and signatures are not part of the event ID.
+func withJunkSignature(r *gen.Rand, evJSON []byte, id *gen.Identity) []byte {
+	jv := ref.MustParse(evJSON)
+	sigs := jv.Get("signatures")
+	if sigs == nil || sigs.K != ref.Obj {
+		return evJSON
+	}
+	sigs.Set(id.Server, ref.O(id.KeyID, ref.S(base64.RawStdEncoding.EncodeToString(r.Bytes(64)))))
+	return gen.Plain().Bytes(jv)
+}
+
 func c15SendJoin(c *mon.Ctx, r *gen.Rand, sc *simScenario, b *simBranch) {
 	s := sc.s
 	local := serverIdentity(c15local)
@@ -445,6 +458,11 @@ func c15SendJoin(c *mon.Ctx, r *gen.Rand, sc *simScenario, b *simBranch) {
 		if err != nil {
 			continue
 		}
+		evJSON := ev.JSON()
+		junk := r.Chance(0.3)
+		if junk {
+			evJSON = withJunkSignature(r, evJSON, local)
+		}
 		roomID := s.create.RoomID()
 		if !vec[2] {
 			other, _ := spec.NewRoomID("!another:origin.example")
@@ -463,9 +481,9 @@ func c15SendJoin(c *mon.Ctx, r *gen.Rand, sc *simScenario, b *simBranch) {
 			existing = "ban"
 		}
 		name := "send_join:" + vecName(names, vec)
-		c.Case(name, map[string]any{"version": s.ver, "guards": vecName(names, vec), "existing_membership": existing, "event": string(ev.JSON())}, func() {
+		c.Case(name, map[string]any{"version": s.ver, "guards": vecName(names, vec), "existing_membership": existing, "junk_entry_under_local_key": junk, "event": string(evJSON)}, func() {
 			q := &c15querier{membership: existing}
-			resp, err := gmsl.HandleSendJoin(gmsl.HandleSendJoinInput{Context: context.Background(), RoomID: roomID, EventID: eventID, JoinEvent: ev.JSON(), RoomVersion: s.ver, RequestOrigin: origin,
+			resp, err := gmsl.HandleSendJoin(gmsl.HandleSendJoinInput{Context: context.Background(), RoomID: roomID, EventID: eventID, JoinEvent: evJSON, RoomVersion: s.ver, RequestOrigin: origin,
 				LocalServerName: spec.ServerName(c15local), KeyID: gmsl.KeyID(local.KeyID), PrivateKey: local.Priv, Verifier: c14ring, MembershipQuerier: q, UserIDQuerier: userIDForSender,
 				StoreSenderIDFromPublicID: func(ctx context.Context, senderID spec.SenderID, userID string, id spec.RoomID) error { return nil }})
 			c15verdict(c, "send_join", name, allTrue(vec), err == nil, vecName(names, vec), s.ver)
@@ -533,6 +551,13 @@ func c15Invite(c *mon.Ctx, r *gen.Rand, sc *simScenario, b *simBranch) {
 		if err != nil {
 			continue
 		}
+		junk := r.Chance(0.3)
+		if junk {
+			// a made-up entry under the invited server's own name and key ID among the signatures
+			if je, err := s.impl.NewEventFromTrustedJSON(withJunkSignature(r, ev.JSON(), inviteeID), false); err == nil {
+				ev = je
+			}
+		}
 		before := append([]byte{}, ev.JSON()...)
 		roomID := s.create.RoomID()
 		if !vec[0] {
@@ -549,7 +574,7 @@ func c15Invite(c *mon.Ctx, r *gen.Rand, sc *simScenario, b *simBranch) {
 		}
 		supplied := r.Chance(0.5)
 		name := "invite:" + vecName(names, vec)
-		c.Case(name, map[string]any{"version": s.ver, "guards": vecName(names, vec), "known_room": known, "current_membership": membership, "stripped_state_supplied": supplied}, func() {
+		c.Case(name, map[string]any{"version": s.ver, "guards": vecName(names, vec), "known_room": known, "current_membership": membership, "stripped_state_supplied": supplied, "junk_entry_under_local_key": junk}, func() {
 			q := &c15querier{state: b.state, membership: membership, known: known}
 			var stripped []gmsl.InviteStrippedState
 			if supplied {
